@@ -115,13 +115,13 @@ class MAUPITIConv2d(nn.Conv2d, MAUPITIModule):
         if not self.skip_requant:
             with torch.no_grad():
                 self._zero_point = (self.add_bias + (self.clip_inf * 2**self.shift) -
-                                    self.clip_inf * self.scale *
+                                    self.in_offset * self.scale *
                                     torch.sum(self.weight, dim=(1, 2, 3)
                                               ).view(1, self.out_channels, 1, 1))
         else:
             with torch.no_grad():
                 self._zero_point = (self.bias -
-                                    self.clip_inf *
+                                    self.in_offset *
                                     torch.sum(self.weight, dim=(1, 2, 3)
                                               ).view(1, self.out_channels, 1, 1))
 
@@ -131,7 +131,7 @@ class MAUPITIConv2d(nn.Conv2d, MAUPITIModule):
         if self.padding == 'valid':
             self.pad = nn.ConstantPad2d(0, 0)
         else:
-            self.pad = nn.ConstantPad2d(self.padding[0], self.clip_inf)
+            self.pad = nn.ConstantPad2d(self.padding[0], self.in_offset)
 
     def forward(self, input: torch.Tensor) -> torch.Tensor:
         """The forward function of integer conv2d layer.
@@ -189,6 +189,12 @@ class MAUPITIConv2d(nn.Conv2d, MAUPITIModule):
     def clip_inf(self):
         # Define ReLU inferior extreme
         return torch.tensor(-2 ** (self.out_quantizer.precision - 1),
+                            device=self.device)
+
+    @property
+    def in_offset(self):
+        # The (signed) integer input activations are shifted by half of the *input* range
+        return torch.tensor(-2 ** (self.in_quantizer.precision - 1),
                             device=self.device)
 
     @property
